@@ -118,7 +118,9 @@ def render(sent, mode):
             t = ""
             for k, wd in enumerate(words):
                 if k:
-                    t += "\n" if wd.upper() not in LINE_WORDS else " "
+                    # (a literal stays on the line of the word before it: a one-word line followed by a line that starts with a literal
+                    # is the separate O-form case `a word alone on its line, then a literal`)
+                    t += "\n" if wd.upper() not in LINE_WORDS and wd[:1] not in ("'", '"') else " "
                 t += wd
         else:
             raise AnalysisError(mode)
